@@ -6,9 +6,10 @@ import Gen.Sharing
 
 /-! driver commands of property C18
 
-    (c18 op…)   op ::= (input stmt…) | (build) | (mut k m)
+    (c18 op…)   op ::= (input stmt…) | (build) | (mut k m) | (clone k j "K" id)
                 m  ::= (append-attr "K" "n" ty) | (insert-attr "K" pos "n" ty) | (delete-attr "K" "n")
-                     | (define-unique "K" "I" ("a"…)) | (new "K") | (delete "K" id) | (set-attr "K" id "a" val)
+                     | (define-unique "K" "I" ("a"…)) | (new "K") | (new-args "K" (val…)) | (delete "K" id)
+                     | (set-attr "K" id "a" val)
                      | (relate n s t) | (unrelate n s t)
     answer: per step (result dump…) — the result of the step and the dump of every metamodel built so far.
     The sharing parameters of the heap model are read from the generated table Gen/Sharing.lean.
@@ -32,16 +33,18 @@ def decMut : Sexp → Option Mut
   | list [sym "delete-attr", str k, str n] => some (.deleteAttr k n)
   | list [sym "define-unique", str k, str n, as] => (decStrs as).map (Mut.defineUnique k n)
   | list [sym "new", str k] => some (.new k)
+  | list [sym "new-args", str k, vs] => (decVals vs).map (Mut.newArgs k)
   | list [sym "delete", str k, int i] => some (.delete k i.toNat)
   | list [sym "set-attr", str k, int i, str a, v] => (decVal v).map (Mut.setAttr k i.toNat a)
   | list [sym "relate", int n, int s, int t] => some (.relate n.toNat s.toNat t.toNat)
   | list [sym "unrelate", int n, int s, int t] => some (.unrelate n.toNat s.toNat t.toNat)
   | _ => none
 
-def decOp : Sexp → Option Op
-  | list (sym "input" :: ss) => (ss.mapM decStmt).map Op.input
-  | list [sym "build"] => some .build
-  | list [sym "mut", int k, m] => (decMut m).map (Op.mutate k.toNat)
+def decOp : Sexp → Option OpC
+  | list (sym "input" :: ss) => (ss.mapM decStmt).map (fun x => OpC.op (Op.input x))
+  | list [sym "build"] => some (.op .build)
+  | list [sym "mut", int k, m] => (decMut m).map (fun μ => OpC.op (Op.mutate k.toNat μ))
+  | list [sym "clone", int k, int j, str kind, int id] => some (.cloneInto k.toNat j.toNat kind id.toNat)
   | _ => none
 
 def encRes : Res → Sexp
@@ -51,6 +54,8 @@ def encRes : Res → Sexp
   | .unrelateError => sym "UnrelateException"
   | .unknownClass => sym "UnknownClassException"
   | .metaError => sym "no-assoc"
+  | .unknownLink => sym "UnknownLinkException"
+  | .unmodelled => sym "unmodelled"
 
 def rowsOfKind (o : Obs) (kind : String) : List (Nat × Row) :=
   match o.classes.find? (fun c => c.kind = kind) with
@@ -84,11 +89,25 @@ def stepRes (sh : Sharing) (w : World) : Op → Sexp
     | some (some o) => encRes (applyMut w.stmts o μ).2.2
     | _ => sym "no-target"
 
-def runAll (sh : Sharing) : World → List Op → List Sexp
+def live (w : World) (k : Nat) : Bool :=
+  match w.metas[k]? with
+  | some (some _) => true
+  | _ => false
+
+def stepResC (sh : Sharing) (w : World) : OpC → Sexp
+  | .op o => stepRes sh w o
+  | .cloneInto k j kind id =>
+    if !live w k then sym "no-target"
+    else if !live w j then sym "no-source"
+    else match resolveOp w (.cloneInto k j kind id) with
+      | .mutate k' μ => stepRes sh w (.mutate k' μ)
+      | _ => sym "unmodelled"
+
+def runAll (sh : Sharing) : World → List OpC → List Sexp
   | _, [] => []
   | w, op :: rest =>
-    let w' := step sh w op
-    list (stepRes sh w op :: encWorld w') :: runAll sh w' rest
+    let w' := stepC sh w op
+    list (stepResC sh w op :: encWorld w') :: runAll sh w' rest
 
 def handle : List Sexp → Option Sexp
   | sym "c18" :: ops =>
